@@ -83,6 +83,12 @@ def replay_backward(item) -> dict:
             fails.append({"kind": "mean", "what": "; ".join(msgs[:3]), "meta": run.meta})
     else:
         fails.append({"kind": "raised", "what": f"backward(Mean) raised {type(run.exc).__name__}", "meta": run.meta})
+    from ..autojac_replay import precision_run_backward
+    msgs = precision_run_backward(scn, rng)
+    runs += 1
+    if msgs:
+        fails.append({"kind": "precision", "what": "Constant(w), float64 values not representable in float32: " + "; ".join(msgs[:3]),
+                      "meta": {"dtype": "float64"}})
     return {"fails": fails, "runs": runs}
 
 
@@ -110,6 +116,12 @@ def replay_mtl(item) -> dict:
             fails.append({"kind": "sum", "what": "Sum(): " + "; ".join(msgs[:3]), "meta": run.meta})
     else:
         fails.append({"kind": "raised", "what": f"mtl_backward(Sum) raised {type(run.exc).__name__}", "meta": run.meta})
+    from ..mtl_replay import precision_run_mtl
+    msgs = precision_run_mtl(scn, rng)
+    runs += 1
+    if msgs:
+        fails.append({"kind": "precision", "what": "Constant(w), float64 values not representable in float32: " + "; ".join(msgs[:3]),
+                      "meta": {"dtype": "float64"}})
     return {"fails": fails, "runs": runs}
 
 
